@@ -1,5 +1,6 @@
 """E2 guards: exit sites, reach formulas, diagnostic-exit shape, truth tables with C integer semantics."""
 import itertools, math
+import sympy as sp
 from .ir import (Undecided, AnalysisBroken, show, strip, strip_casts, walk_stmts, stmt_exprs, walk_expr,
                  stmt_children, expr_children)
 from .symx import accessor_field
@@ -669,8 +670,53 @@ class CEval:
                     ok = self.tk.key(o)
                     if ok is not None:
                         return CEval(self.prog, PrefixRow(self.row, ok), self.extra, self.aliases).formula(f)
+            v_ = self.pure_call(e)
+            if v_ is not None:
+                return v_
             raise Undecided('call in guard: %s' % show(e))
         raise Undecided('guard term %s: %s' % (k, show(e)))
+
+    _PURE = {}
+
+    def pure_call(self, e):
+        """A call of a small in-repo free function with scalar arguments (Sign, StepFunction, ...): evaluated through the
+        path summary of the callee (conditions and returned terms), not by running it."""
+        c = e.get('callee') or {}
+        if not c.get('inrepo') or e.get('kind') != 'func' or c.get('mutrefs'):
+            return None
+        fn = self.prog.by_sig(c.get('sig'))
+        if fn is None or fn.body is None or len(fn.params) != len([a_ for a_ in e.get('args', [])]):
+            return None
+        key = (id(self.prog), fn.sig)
+        if key not in CEval._PURE:
+            try:
+                from .symx import Symx
+                sx = Symx(self.prog, fn)
+                outs = sx.run()
+                syms = [sx.symbol(p_['name'], p_['ty']) for p_ in fn.params]
+                ok = all(o.kind == 'return' and isinstance(o.value, sp.Basic) for o in outs)
+                CEval._PURE[key] = (outs, syms) if ok else None
+            except Exception:
+                CEval._PURE[key] = None
+        ent = CEval._PURE[key]
+        if ent is None:
+            return None
+        outs, syms = ent
+        try:
+            vals = [self.ev(a_) for a_ in e['args']]
+        except Undecided:
+            return None
+        if any(isinstance(v_, float) and (math.isnan(v_) or math.isinf(v_)) for v_ in vals):
+            return None
+        sub = dict(zip(syms, vals))
+        for o in outs:
+            cnd = o.cond.subs(sub)
+            if cnd == sp.true:
+                r = o.value.subs(sub)
+                if r.free_symbols or r.atoms(sp.core.function.AppliedUndef):
+                    return None
+                return float(r) if not r.is_Integer else int(r)
+        return None
 
     def formula(self, f):
         k = f[0]
